@@ -88,8 +88,8 @@ def classify_m(mline, trace_lines):
             props |= {"C01"}
     if opname in ("clone", "clonefrom"):
         props |= {"C10"}
-    if opname == "serde":
-        mutated = len(op) > 7
+    if opname == "de":
+        mutated = len(op) > 5 and op[5] == "-"
         props |= {"C11"} if mutated else {"C06"}
     if opname in ("q", "entries"):
         props |= {"C03"}
@@ -111,7 +111,7 @@ def classify_x(xline, trace_lines):
     if m.group(1).isdigit():
         op = op_before(trace_lines, int(m.group(1))).split(" ")
         opname = op[2] if len(op) > 2 else ""
-        mutated = opname == "serde" and len(op) > 7
+        mutated = opname == "de" and len(op) > 5 and op[5] == "-"
     else:
         mutated = False
     props = set()
@@ -123,12 +123,17 @@ def classify_x(xline, trace_lines):
         props |= {"C04"}
         if "checksum" in rest or "misaligned" in rest:
             props = {"C05"}
-    elif oracle in ("crash", "timeout", "driver-crash", "dump-parse", "alloc"):
+    elif oracle in ("crash", "timeout"):
+        # the real code aborted / hung on a safe history: no property about that history can hold
+        props |= {"C05", "*"}
+    elif oracle in ("driver-crash", "dump-parse", "alloc"):
         props |= {"C05"}
     elif oracle == "spec":
         props |= {"C01"}
         if "ident" in rest:
             props |= {"C02"}
+    elif oracle == "drops":
+        props |= {"C04"}
     elif oracle == "lockstep":
         props |= {"C06"}
     elif oracle == "independence":
@@ -145,7 +150,7 @@ def classify_x(xline, trace_lines):
         props |= {"C05"}
     if opname in ("clone", "clonefrom"):
         props |= {"C10"}
-    if opname == "serde":
+    if opname == "de":
         props |= {"C11"} if mutated else {"C06"}
     if opname == "fault":
         props = {"C17"}
@@ -156,13 +161,27 @@ def classify_x(xline, trace_lines):
 # property table
 # ------------------------------------------------------------------------------------------
 
+def query_runs(tier, seed):
+    return core_runs(tier, seed, profile="multi-query")
+
+
+def serde_runs(tier, seed):
+    return core_runs(tier, seed, profile="multi-serde")
+
+
+def mutate_runs(tier, seed):
+    return core_runs(tier, seed, profile="multi-serde-mutate")
+
+
 def core_runs(tier, seed, profile="multi"):
     if tier == "thorough":
         return [["core", "--family", "reg4", "--seed", str(seed), "--cases", "6000", "--ops", "60", "--profile", profile],
                 ["core", "--family", "reg10", "--seed", str(seed + 1), "--cases", "3000", "--ops", "60", "--profile", profile],
+                ["core", "--family", "reg8", "--seed", str(seed + 3), "--cases", "2000", "--ops", "60", "--profile", profile],
                 ["core", "--family", "reg4", "--seed", str(seed + 2), "--cases", "40", "--ops", "2000", "--profile", profile]]
     return [["core", "--family", "reg4", "--seed", str(seed), "--cases", "250", "--ops", "50", "--profile", profile],
-            ["core", "--family", "reg10", "--seed", str(seed + 1), "--cases", "120", "--ops", "50", "--profile", profile]]
+            ["core", "--family", "reg10", "--seed", str(seed + 1), "--cases", "100", "--ops", "50", "--profile", profile],
+            ["core", "--family", "reg8", "--seed", str(seed + 2), "--cases", "60", "--ops", "50", "--profile", profile]]
 
 
 TRUSTED = [
@@ -190,6 +209,15 @@ PROPS = {
     "C04": dict(runs=core_runs,
                 level="ledger conservation theorems on L1; per-op drop multisets of the real code (observing Drop impls) compared with the model, ledger empty after all worlds dropped",
                 trust=CORE_TRUST, technique="Lean 4 proof (multiset conservation per op) + differential correspondence check with a drop ledger"),
+    "C03": dict(runs=query_runs,
+                level="query model (filter recursion, bit-walk column selection, optional views, entry and sub-view queries, size_hint) with theorems in Props/C03.lean; a generated family of typed queries run on the real World after random histories and compared row-for-row with the model; size_hint checked against the true remaining count at every step",
+                trust=CORE_TRUST + "; the typed query family is finite (listed in evidence)", technique="Lean 4 proof over the query model + differential correspondence check on a generated typed query family"),
+    "C06": dict(runs=serde_runs,
+                level="token-level model of Serialize/Deserialize (both encodings) with round-trip theorems in Props/C06.lean; the real token stream of every round trip is deserialized by the real code and by the model, dumps compared, the copy then driven in lock-step with further ops; rejection of a reachable world's serialization is an oracle failure",
+                trust=CORE_TRUST + "; serde_assert 0.5 framing rules modelled from its source", technique="Lean 4 proof (round trip on the token model) + differential correspondence check on real token streams"),
+    "C11": dict(runs=mutate_runs,
+                level="the model deserializer decides every token stream (Props/C11.lean: accepted => Inv); mutated real serializations (delete/duplicate/swap/alter tokens, headers, field names, whole elements) are fed to the real code and the model: verdicts and resulting worlds compared, Inv evaluated on every accepted world, ledger checked for double drops",
+                trust=CORE_TRUST + "; serde_assert 0.5 framing rules modelled from its source; error classes are not compared, only Ok/Err", technique="Lean 4 proof (accepted input => invariant) + differential correspondence check on mutated token streams"),
     "C13": dict(runs=core_runs,
                 level="Inv preserved by every modelled op (Props/C13.lean); the compiled Inv predicate evaluated on a structural dump of the real world after every op",
                 trust=CORE_TRUST, technique="Lean 4 proof (inductive invariant) + invariant monitoring on real dumps + differential correspondence check"),
@@ -234,7 +262,7 @@ def search_failing_input(pid, seed, tier, tmp, spec):
                 xs.append("X %d case=%s oracle=crash harness-exit=%d" % (len(lines), last_case(lines), rc))
             for x in xs:
                 props, what = classify_x(x, lines)
-                if pid in props:
+                if pid in props or "*" in props:
                     return lines, x, what
     return None
 
@@ -283,15 +311,35 @@ def check_property(pid, tier, seed, t0):
         runs += spec["runs"](tier, seed) if spec.get("runs") else []
         for k, args in enumerate(runs):
             tr = "%s.%d.trace" % (tmp, k)
-            crashed = False
-            try:
-                rc, stats, err = C.harness_trace(args, tr, timeout=3000)
-            except subprocess.TimeoutExpired:
-                rc, stats, err, crashed = -1, {}, "timeout", True
-            ms, xs, summ = C.drive(tr)
-            lines = open(tr).read().splitlines()
-            if rc != 0:
-                xs.append("X %d case=%s oracle=crash harness-exit=%d %s" % (len(lines), last_case(lines), rc, err.strip().splitlines()[-1][:200] if err.strip() else ""))
+            # a crash (abort / signal) of the real code loses only the case it happened in: the run
+            # is resumed after it, a few times
+            lines, ms, xs, summ, stats = [], [], [], {}, {}
+            first = 0
+            for attempt in range(6):
+                a2 = args + (["--first", str(first)] if args[0] == "core" and first else [])
+                try:
+                    rc, stats1, err = C.harness_trace(a2, tr, timeout=3000)
+                except subprocess.TimeoutExpired:
+                    rc, stats1, err = -1, {}, "timeout"
+                ms1, xs1, summ1 = C.drive(tr)
+                lines1 = open(tr).read().splitlines()
+                off = len(lines)
+                ms += [re.sub(r"^M (\d+)", lambda m: "M %d" % (int(m.group(1)) + off), l) for l in ms1]
+                xs += [re.sub(r"^X (\d+)", lambda m: "X %d" % (int(m.group(1)) + off), l) for l in xs1]
+                lines += lines1
+                for kk, v in summ1.items():
+                    summ[kk] = int(summ.get(kk, 0)) + int(v)
+                for grp in ("op_hist", "branches"):
+                    for kk, v in stats1.get(grp, {}).items():
+                        stats.setdefault(grp, {})[kk] = stats.get(grp, {}).get(kk, 0) + v
+                if rc == 0:
+                    break
+                lc = last_case(lines1)
+                xs.append("X %d case=%s oracle=crash harness-exit=%d %s" % (len(lines), lc, rc, err.strip().splitlines()[-1][:200] if err.strip() else ""))
+                m = re.search(r"-(\d+)$", lc)
+                if args[0] != "core" or not m:
+                    break
+                first = int(m.group(1)) + 1
             evaluations += int(summ.get("ops", 0))
             real_dumps += int(summ.get("real_dumps", 0))
             for kk, v in stats.get("op_hist", {}).items():
@@ -302,7 +350,7 @@ def check_property(pid, tier, seed, t0):
                 samples = [l for l in lines if l.startswith("op ")][:12]
             for x in xs:
                 props, what = classify_x(x, lines)
-                (found if pid in props else unrelated).append(("X", x, what, lines))
+                (found if (pid in props or "*" in props) else unrelated).append(("X", x, what, lines))
             for m in ms:
                 props, what = classify_m(m, lines)
                 (found if pid in props else unrelated).append(("M", m, what, lines))
